@@ -320,7 +320,7 @@ fn emitted_names_family(rep: &mut Report) {
     // identifiers whose converted name starts with a digit (the dictionary has none)
     fields.extend(["_1", "_2fa", "__3d", "_4_u"].iter().map(|s| s.to_string()));
     let variants = read("idents_variants.txt");
-    let mut jobs: Vec<(String, bool, &'static str, Lang, bool)> = Vec::new();
+    let mut jobs: Vec<(String, bool, &'static str, Lang, bool, bool)> = Vec::new();
     for (list, variant) in [(&fields, false), (&variants, true)] {
         for id in list.iter() {
             for rule in &RULES[..8] {
@@ -329,21 +329,28 @@ fn emitted_names_family(rep: &mut Report) {
                 }
                 for &lang in &ALL_LANGS {
                     for prefixed in [false, true] {
-                        jobs.push((id.clone(), variant, rule, lang, prefixed));
+                        jobs.push((id.clone(), variant, rule, lang, prefixed, false));
+                    }
+                    // TypeScript revives dates by key: a date-typed field binds its name a second time, in ReviverFunc
+                    if lang == Lang::TypeScript && !variant {
+                        jobs.push((id.clone(), variant, rule, lang, false, true));
                     }
                 }
             }
         }
     }
-    let results = par_map(&jobs, report::threads(), |(id, variant, rule, lang, prefixed)| {
+    let results = par_map(&jobs, report::threads(), |(id, variant, rule, lang, prefixed, date)| {
         let sp = spell(id)?;
         serde_name(rule, id, *variant)?;
         let src = if *variant {
             format!("#[typeshare]\n#[serde(rename_all = \"{rule}\")]\npub enum Subject {{ {sp}, Zz9 }}\n")
         } else {
-            format!("#[typeshare]\n#[serde(rename_all = \"{rule}\")]\npub struct Subject {{ pub {sp}: u32 }}\n")
+            format!("#[typeshare]\n#[serde(rename_all = \"{rule}\")]\npub struct Subject {{ pub {sp}: {} }}\n", if *date { "DateTime" } else { "u32" })
         };
-        let cfg = if *prefixed { Cfg::prefixed() } else { Cfg::plain() };
+        let mut cfg = if *prefixed { Cfg::prefixed() } else { Cfg::plain() };
+        if *date {
+            cfg.type_mappings.push(("DateTime".into(), "Date".into()));
+        }
         // the name the parser computed for this very input (compared with serde_derive's by the sweeps above)
         let exp = match pipeline::parse_only(&[SrcFile::single(src.clone())], &cfg) {
             Ok(m) => m.values().next().and_then(|pd| {
@@ -361,6 +368,11 @@ fn emitted_names_family(rep: &mut Report) {
         }
         let name = refmodel::prefixed(*lang, &cfg, "Subject");
         let obs: Result<Option<String>, String> = match refmodel::run_source(&src, *lang, &cfg) {
+            Ok(ok) if *date => Ok(match ok.out.reviver_keys.as_deref() {
+                Some([k]) => Some(k.clone()),
+                Some(ks) => Some(format!("<{} keys in ReviverFunc: {ks:?}>", ks.len())),
+                None => None,
+            }),
             Ok(ok) => Ok(if *variant {
                 ok.out.enums().find(|e| e.name == name).and_then(|e| e.variants.first().map(|v| v.wire.clone()))
             } else {
@@ -374,9 +386,9 @@ fn emitted_names_family(rep: &mut Report) {
     let mut judged = 0u64;
     let mut unreadable = 0u64;
     let mut nontrivial = BTreeSet::new();
-    for ((id, variant, rule, lang, prefixed), r) in jobs.iter().zip(results) {
+    for ((id, variant, rule, lang, prefixed, date), r) in jobs.iter().zip(results) {
         let Some((exp, obs, src)) = r else { continue };
-        let pos = if *variant { "variant" } else { "field" };
+        let pos = if *date { "field-key-in-reviver" } else if *variant { "variant" } else { "field" };
         judged += 1;
         if exp != *id {
             nontrivial.insert(report::fnv64(&format!("{id}|{rule}|{pos}|{}", lang.name())));
